@@ -23,8 +23,16 @@ func (vc *VC) fieldName(structT types.Type, f *types.Var) string {
 	case *types.Pointer, *types.Chan, *types.Map:
 		heapRefLike[n] = true
 	}
+	if isStructVal(f.Type()) {
+		heapStructVal[n] = true
+	}
 	return n
 }
+
+// heapStructVal: field arrays that hold the identity of a struct embedded by value. The identity
+// of an embedded struct is its address, which no call can change: a full heap havoc (which also
+// havocs the contents of every struct) leaves these arrays alone.
+var heapStructVal = map[string]bool{}
 
 // heapRefLike: field arrays whose values are references (pointers, channels, maps); on entry
 // every such value was allocated before the call, i.e. is <= alloc$base.
@@ -36,6 +44,10 @@ func (vc *VC) readField(st *State, base Term, structT types.Type, f *types.Var) 
 	h := vc.heapGet(st, name, arrSort(SInt, srt))
 	v := Select(h, base)
 	vc.assumeAllocated(st, v, f.Type())
+	if srt == SInt && isBasicInt(f.Type()) && !strings.Contains(v.S, "q$") {
+		// typed memory: an integer field holds a value of its type
+		st.assume(vc.rangeFact(f.Type(), v))
+	}
 	return v
 }
 
